@@ -23,7 +23,29 @@ def main():
     except ImportError as e:
         print("ANALYSIS-BROKEN property=%s no rule module: %s" % (a.prop, e))
         return 2
-    return core.run_property(a.prop, mod, tier)
+    wanted = None
+    if a.replay:
+        # deterministic analysis: a replay re-evaluates the property on the current tree and says which of the
+        # reported (rule, site) pairs recur
+        import json
+        try:
+            with open(a.replay) as f:
+                wanted = set((v["rule"], v.get("site", v.get("instance"))) for v in json.load(f).get("violations", []))
+        except Exception as e:
+            print("ANALYSIS-BROKEN property=%s cannot read replay file %s: %s" % (a.prop, a.replay, e))
+            return 2
+    rc = core.run_property(a.prop, mod, tier)
+    if wanted is not None:
+        import json
+        now = set()
+        rp = os.path.join(core.VERIF, "reports", "%s%s.json" % (a.prop, "-scratch" if os.environ.get("BSA_NO_EVIDENCE") else ""))
+        if rc == 1 and os.path.exists(rp):
+            with open(rp) as f:
+                now = set((v["rule"], v.get("site", v.get("instance"))) for v in json.load(f).get("violations", []))
+        print("replay: %d of %d reported violation(s) recur on the current tree" % (len(wanted & now), len(wanted)))
+        for r_, s_ in sorted(wanted & now)[:20]:
+            print("  recurs: %s %s" % (r_, s_))
+    return rc
 
 
 if __name__ == "__main__":
